@@ -46,6 +46,10 @@ pub enum SOp {
     /// TLS server: a TCP connection that sends plaintext instead of a ClientHello: accepted (the
     /// oldest session goes if the server is full) and then closed. Plain TCP: connect + garbage.
     HandshakeGarbage,
+    /// server with an address filter that admits 127.0.0.1 only: a connection from 127.0.0.2.
+    /// It is never a session: closed without an answer, and no session makes room for it.
+    /// (Server without a filter: skipped.)
+    Outsider,
 }
 
 #[derive(Clone, Debug, PartialEq, Eq, Hash, Serialize, Deserialize)]
@@ -60,6 +64,10 @@ pub struct C15Case {
     /// harness hands over), peers with a 4 KiB receive buffer
     #[serde(default)]
     pub small_buffers: bool,
+    /// 0 = AddressFilter::Any; 1 = Exact(127.0.0.1); 2 = AnyOf{127.0.0.1, 10.9.8.7};
+    /// 3 = WildcardIpv4 "127.0.0.1"
+    #[serde(default)]
+    pub filter: u8,
 }
 
 pub fn arb_c15() -> BoxedStrategy<C15Case> {
@@ -74,17 +82,19 @@ pub fn arb_c15() -> BoxedStrategy<C15Case> {
         2 => any::<u8>().prop_map(SOp::FloodNoRead),
         2 => (0u8..3).prop_map(SOp::StalledHandshake),
         1 => Just(SOp::HandshakeGarbage),
+        3 => Just(SOp::Outsider),
     ];
     (
         prop::bool::weighted(0.4),
         any::<bool>(),
+        prop_oneof![3 => Just(0u8), 1 => 1u8..=3],
         0u8..=4,
         arb_decode_any(),
         vec(op, 3..22),
         prop_oneof![2 => Just(None), 1 => Just(Some(SOp::Shutdown)), 1 => Just(Some(SOp::DropHandle))],
         0usize..6,
     )
-        .prop_map(|(tls, small, max_sessions, decode, mut ops, end, extra)| {
+        .prop_map(|(tls, small, filter, max_sessions, decode, mut ops, end, extra)| {
             if let Some(e) = end {
                 ops.push(e);
                 // operations after the end: everything must stay closed
@@ -98,6 +108,7 @@ pub fn arb_c15() -> BoxedStrategy<C15Case> {
                 ops,
                 tls,
                 small_buffers: small && !tls,
+                filter,
             }
         })
         .boxed()
@@ -171,6 +182,13 @@ fn run_once(case: &C15Case, slow: u32) -> CaseResult {
         };
         let addr = listener.local_addr().unwrap();
         let map = ServerHandlerMap::single(UnitId::new(1), Sentinel.wrap());
+        let home: std::net::IpAddr = "127.0.0.1".parse().unwrap();
+        let filter = || match case.filter {
+            1 => AddressFilter::Exact(home),
+            2 => AddressFilter::AnyOf([home, "10.9.8.7".parse().unwrap()].into_iter().collect()),
+            3 => AddressFilter::WildcardIpv4("127.0.0.1".parse().unwrap()),
+            _ => AddressFilter::Any,
+        };
         let (handle, task) = if case.tls {
             let cfg = TlsServerConfig::new(
                 &path("ca1", "pem"),
@@ -186,7 +204,7 @@ fn run_once(case: &C15Case, slow: u32) -> CaseResult {
                 listener,
                 map,
                 cfg,
-                AddressFilter::Any,
+                filter(),
                 case.decode.to_rodbus(),
             )
         } else {
@@ -194,7 +212,7 @@ fn run_once(case: &C15Case, slow: u32) -> CaseResult {
                 case.max_sessions as usize,
                 listener,
                 map,
-                AddressFilter::Any,
+                filter(),
                 case.decode.to_rodbus(),
             )
         };
@@ -313,6 +331,33 @@ fn run_once(case: &C15Case, slow: u32) -> CaseResult {
                         fds.push(if case.tls { -1 } else { raw_fd });
                     } else {
                         labels.insert("connect_refused_after_shutdown", ());
+                    }
+                }
+                SOp::Outsider => {
+                    if case.filter == 0 {
+                        continue;
+                    }
+                    let sock = tokio::net::TcpSocket::new_v4().map_err(|e| format!("INFRA: socket {}", e))?;
+                    sock.bind("127.0.0.2:0".parse().unwrap()).map_err(|e| format!("INFRA: bind 127.0.0.2: {}", e))?;
+                    match tokio::time::timeout(wait, sock.connect(addr)).await {
+                        Ok(Ok(mut s)) => {
+                            // a request right away: it must never be answered
+                            let _ = s.write_all(&mbap_frame(7, 1, &[3, 0, 0, 0, 1])).await;
+                            let raw_fd = {
+                                use std::os::fd::AsRawFd;
+                                s.as_raw_fd()
+                            };
+                            conns.push((Box::new(s), Conn::Dead));
+                            fds.push(if case.tls { -1 } else { raw_fd });
+                            if server_up {
+                                labels.insert(if tracked.len() >= limit { "outsider_at_the_limit" } else { "outsider_below_the_limit" }, ());
+                            }
+                        }
+                        _ => {
+                            if server_up {
+                                return Err(format!("op {}: connect from 127.0.0.2 to the running server failed", opi));
+                            }
+                        }
                     }
                 }
                 SOp::ClientClose(i) => {
